@@ -1,8 +1,12 @@
 import AFV.Driver.Proto
+import AFV.Driver.C13
+/-!
+C14 uses the same judge as C13 (exact front of the singleton-join combinations, tolerance-aware comparison with what the staged
+join returned); see `AFV/Driver/C13.lean` for the ops `front` and `check`.
+-/
 namespace AFV.Driver.C14
 open Lean AFV.Proto
 
-/-- Handler for property C14 requests (stub: not implemented yet). -/
-def handle (_req : Json) : Json := err "unimplemented"
+def handle (req : Json) : Json := AFV.Driver.C13.handle req
 
 end AFV.Driver.C14
